@@ -27,7 +27,8 @@ NAMES = ['ed25519_0', 'ed25519_1', 'ed25519_2', 'ed25519_3']
 SUBS = ['cv25519_0', 'cv25519_1', 'cv25519_2', 'ecdh_p256_0']
 UIDS = [[('Shared Name', 'c1', 'a@example.org'), ('Alice', '', 'shared@example.org')],
         [('Shared Name', 'shared comment', 'b@example.org')],
-        [('Carol', '', 'shared@example.org')],
+        # two identities of ONE key under the same name, told apart by comment and address only
+        [('Carol', '', 'shared@example.org'), ('Carol', 'work', 'carol@work.example'), ('Carol', 'shared comment', 'carol@home.example')],
         [('Dave', 'shared comment', 'd@example.org'), ('Shared Name', '', 'dave2@example.org')]]
 
 _U = None
